@@ -243,7 +243,7 @@ def run_case(case):
             return None
         # without calculated divisions the arrow reader lists fragments "as the files are listed"
         # (documented: no ordering guarantee), and files with unsorted statistics have no defined order
-        sort_rows = (bool(case.get("shuffle_files")) or case["fs"] == "arrow") and not case.get("calc_div")
+        sort_rows = bool(case.get("shuffle_files")) or (case["fs"] == "arrow" and not case.get("calc_div"))
         if case["kind"] == "partitions":
             o = q.optimize()
             nparts = o.npartitions
